@@ -1,2 +1,2 @@
-/* fid: eq-nullptr-const-vs-arith (fixed 2e6f4ec); msg: invalid operands to '==' operator */
+/* fid: eq-nullptr-const-vs-arith (fixed 826c347); msg: invalid operands to '==' operator */
 int f(double d){ return (void*)0 == d; }
